@@ -333,6 +333,13 @@ def _replace_subscript_looping_complex_cases(source: str) -> str:
         if len(target_indexed_nodes) != len(target_used_nodes):
             continue
 
+        index_used_nodes = set(
+            core.walk(template_match.root, ast.Name(id=template_match.index.id))
+        )
+        if len(index_used_nodes) != len(target_indexed_nodes) + 1:
+            # The index is used for something else than indexing the target as well
+            continue
+
         new_index_name = f"{template_match.target.id}_{template_match.index.id}"
 
         yield comprehension.target, ast.Name(id=new_index_name)
